@@ -122,7 +122,7 @@ LINE_GAPS = (None, 1, 2, 3, 5, 8, 13, 21, 34, 55, 89, 144, 233, 377, 610, 987, 1
 
 class Sim:
     def __init__(self, tape, p_switch=0.2, line_gap_max=0, trace_files=(),
-                 max_steps=1_500_000, max_virtual=None, spin_reads=5000):
+                 max_steps=1_500_000, max_virtual=None, spin_reads=5000, trace_opcodes=False):
         self.tape = tape
         self.now = EPOCH
         self.wall_offset = 0.0        # wall clock = now + wall_offset (clock step faults)
@@ -136,6 +136,7 @@ class Sim:
         self.nchoice2 = 0             # scheduling decisions with >= 2 candidates
         self.max_steps = max_steps
         self.spin_reads = spin_reads    # clock reads in a row (nothing else done) after which a task counts as spinning
+        self.trace_opcodes = bool(trace_opcodes)   # byte code instructions instead of lines as pre-emption points
         self.max_virtual = max_virtual
         self.done = _real_allocate()
         self.done.acquire()
@@ -181,11 +182,14 @@ class Sim:
 
     def _tracer(self, frame, event, arg):
         if frame.f_code.co_filename.endswith(self.trace_files):
+            if self.trace_opcodes:
+                # pre-emption inside a line (between the load and the store of 'x -= y' on shared state)
+                frame.f_trace_opcodes = True
             return self._ltracer
         return None
 
     def _ltracer(self, frame, event, arg):
-        if event == 'line' and not self.finished:
+        if (event == 'line' or event == 'opcode') and not self.finished:
             self.nline += 1
             if self._line_countdown is not None:
                 self._line_countdown -= 1
